@@ -99,6 +99,20 @@ def abstract_subclasses(fp):
 
 # ----------------------------------------------------------------------------------------- configurations
 
+EXTRA_KEYS = {"MinFlowDecomp": ["use_subgraph_scanning_lowerbound", "use_subgraph_scanning_weights_in_given_weights_optimization",
+                                "add_min_gen_set_to_given_weights", "min_gen_set_remove_sums_of_two", "allow_empty_paths"],
+              "MinFlowDecompCycles": ["add_min_gen_set_to_given_weights", "min_gen_set_remove_sums_of_two", "allow_empty_walks"]}
+
+
+def option_keys(cls):
+    from props import c05
+    try:
+        keys = list(c05.flags_of(cls))
+    except Exception:
+        keys = []
+    return keys + EXTRA_KEYS.get(cls, [])
+
+
 def configs(fp, cls):
     """[(name, builder)]; builder() -> (callable constructing the object, kwargs) with fresh argument objects"""
     out = []
@@ -131,6 +145,15 @@ def configs(fp, cls):
         mk("constraints", cons)
         if "error_scaling" in sig:
             mk("scaling", lambda kw: (opts(kw), kw.update(error_scaling={("a", "b"): 0.5})))
+            # a factor 0 makes the class ignore the edge: the ignore list (the caller's, or the shared default) is in play
+            mk("scaling_zero", lambda kw: (opts(kw), kw.update(error_scaling={("a", "b"): 0})))
+            mk("scaling_zero_ignore", lambda kw: (opts(kw), kw.update(error_scaling={("a", "b"): 0},
+                                                                         elements_to_ignore=[("s", "b")] if not K.is_cyc(cls) else [("s", "a")])))
+        if "optimization_options" in sig:
+            # one configuration per option key the class documents / reads: each switches on code that handles the caller's
+            # objects (option dicts handed on to inner models, lower-bound helpers, safety data)
+            for flag in option_keys(cls):
+                mk("flag:" + flag, lambda kw, flag=flag: opts(kw, {flag: True}))
         if "solution_weights_superset" in sig:
             mk("given_weights", lambda kw: (opts(kw), kw.update(solution_weights_superset=[1, 2, 3, 5])))
             mk("given_weights_constraints", lambda kw: (cons(kw), kw.update(solution_weights_superset=[1, 2, 3, 5])))
